@@ -285,6 +285,7 @@ Proof.
     specialize (IH (ex_intro _ t Hx) Hss).
     intros c c' H Hb. cbn [marshal_t] in H. cbv zeta in H. cbn [relabel] in Hb |- *.
     destruct (N.ltb_spec 255 (len (to_str t))) as [|Hl]; [discriminate|].
+    destruct (is_ok (validate_signature (to_str t))) eqn:Evs; [|discriminate].
     destruct (relabel x (mfds c)) as [x' n'] eqn:Er. cbn [fst snd] in *.
     specialize (IH _ _ H). cbn [mbuf mfds] in IH. rewrite Er in IH. cbn [fst snd] in IH. specialize (IH Hb).
     cbn [arrays_within]. unfold write_signature in IH. rewrite !len_app in IH. unfold sig_bytes.
